@@ -164,12 +164,20 @@ def parse_template(path):
                     a['k'] = int(v)
             cur.ats.append(a)
             sect = a['lines']
-        elif word in ('replace-stmt', 'replace-expr'):
+        elif word in ('replace-stmt', 'replace-expr', 'replace-stmt-alt', 'replace-expr-alt'):
             toks = _bt(rest)
             qs = [v for kind, v in toks if kind == 'q']
             allf = any(v == 'all' for kind, v in toks if kind == 'w')
             rec = {'text': qs[0], 'with': qs[1], 'all': allf}
-            (cur.replace_stmt if word == 'replace-stmt' else cur.replace_expr).append(rec)
+            lst = cur.replace_stmt if word.startswith('replace-stmt') else cur.replace_expr
+            if word.endswith('-alt'):
+                # alternative to the previous replacement: exactly one of the group must match
+                prev = lst[-1]
+                if prev.get('group') is None:
+                    cur._groups = getattr(cur, '_groups', 0) + 1
+                    prev['group'] = cur._groups
+                rec['group'] = prev['group']
+            lst.append(rec)
             sect = None
         elif word == 'end':
             chunks.append(('fn', cur))
@@ -319,7 +327,7 @@ def assemble(unit_dir, mode='verify'):
             items.append({'kind': 'fn', 'file': os.path.join(REPO, c.file), 'path': c.path, 'anchors': anchors,
                           'replace_stmt': c.replace_stmt, 'replace_expr': c.replace_expr,
                           'no_rewrite': [k[3:] for k in c.opts if k.startswith('no-')],
-                          'sig_only': c.stub, 'retain': c.opts.get('retain')})
+                          'sig_only': c.stub, 'retain': c.opts.get('retain'), 'mutself': bool(c.opts.get('mutself'))})
     resp = run_vx(items, meta['features'])
     for it, r in zip(items, resp):
         if not r['ok']:
@@ -356,6 +364,8 @@ def assemble(unit_dir, mode='verify'):
                     g.add('impl vstd::std_specs::cmp::PartialEqSpecImpl for %s { open spec fn obeys_eq_spec() -> bool { true } open spec fn eq_spec(&self, other: &Self) -> bool { *self == *other } } // assumed: #[derive(PartialEq)] is structural equality (no float field)' % c['name'], ('tpl', c['line']))
                 else:
                     raise Undecided(f"assume-derive({tr}) unsupported")
+            for k, v in r.get('rewrites', {}).items():
+                info['rewrites'][k] = info['rewrites'].get(k, 0) + v
             info['types'].append({'name': c['name'], 'file': c['file'], 'hash': h, 'real_derives': sorted(real), 'kept_derives': c['derive'] or []})
         elif kind == 'fn':
             r = resp[idx[id(c)]]
